@@ -414,7 +414,7 @@ func main() {
 			if t == "thorough" {
 				return 300000
 			}
-			return 8000
+			return 16000
 		},
 		Floor: func(t string) int {
 			if t == "thorough" {
